@@ -54,6 +54,10 @@ def run(rep):
     rep.guard(c13.u3, rep, w)          # a string slice at a position that is not a character boundary is a host panic, wherever it is taken (iterator steps, error messages)
     import c14
     rep.guard(c14.m5, rep, w)          # closures do not trace their module (every module stays registered until reset()): a module that leaves the registry earlier is freed under its closures
+    rep.guard(c01.r0, rep, w)          # the collector's phases: a single blacken pass loses what a blacken re-greys (a bound method's receiver) - a reachable object is freed and used
+    rep.guard(c01.r2, rep, w)          # a handle kept outside the heap without a root (the class of a built-in error in the class store) dangles after the next collection
+    import c12
+    rep.guard(c12.h13, rep, w, 'C02')  # a hasher whose write() panics is a host panic for the first key that reaches it
 
 
 def const_usize(o):
